@@ -31,13 +31,13 @@ input) it returns what the run-time call on the built objects returns, in both f
 all widths (C13_ct_equals_rt); the generated lexerdef() rebuilds the run-time definition
 (C13_ct_lexerdef_equals_rt).  The facts about the generated text that this model assumes
 (P1-P4, L1 at the head of PipelineModel.v) are checked on every generated module
-(static_module_part); C13_SELFTEST=recoverer|swapdata|format|databyte|ruleflags damages them.
+(static_module_part); C13_SELFTEST=recoverer|swapdata|format|databyte|ruleflags|config damages them.
 """
 import os
 import re
 import shutil
 
-from vlib import core
+from vlib import core, ctconfig
 from gen import c13gen
 from gen.c13gen import hx
 
@@ -452,8 +452,23 @@ ENTRY_TEXT = {
     "O": ".parse_map(lexer,&|lexeme|Node::Term{lexeme},&|ridx,nodes|Node::Nonterm{ridx,nodes})",
     "N": ".parse_map(lexer,&|_|(),&|_,_|()).1",
 }
-RECONSTITUTE_ARM = ("::lrpar::ctbuilder::SerialisationFormat::%s=>{::lrpar::ctbuilder::_reconstitute(__GRM_DATA,__STABLE_DATA,"
-                    "::lrpar::ctbuilder::wincode::config::Configuration::default().with_%s_encoding())}")
+RECONSTITUTE_ARM = "::lrpar::ctbuilder::SerialisationFormat::%s=>{::lrpar::ctbuilder::_reconstitute(__GRM_DATA,__STABLE_DATA,"
+
+
+def reconstitute_arm_config(T, fmt):
+    """the configuration expression (third argument of `_reconstitute`) of the arm of `fmt` in the squeezed text of a
+    generated parser; None unless there is exactly one arm of the expected shape `Fmt => { _reconstitute(G, S, <cfg>) }`"""
+    head = RECONSTITUTE_ARM % fmt
+    if T.count(head) != 1:
+        return None
+    i = T.index(head) + len(head)
+    depth, j = 1, i
+    while j < len(T) and depth:
+        depth += {"(": 1, ")": -1}.get(T[j], 0)
+        j += 1
+    if depth or not T.startswith("}", j):
+        return None
+    return T[i:j - 1]
 
 
 def squeeze(text):
@@ -469,7 +484,7 @@ def embedded_bytes(T, name):
     return bytes(int(x[:-2]) for x in m[0].split(",") if x)
 
 
-def module_text_facts(T, yk, rec, ser):
+def module_text_facts(T, yk, rec, ser, cfgs):
     """the facts P1-P3 of PipelineModel.v on the whitespace-free text of a generated parser module;
     returns (list of broken facts, __GRM_DATA bytes, __STABLE_DATA bytes)"""
     bad = []
@@ -481,9 +496,13 @@ def module_text_facts(T, yk, rec, ser):
     # each constant: its definition + one use per arm of __lrpar_parser_data, nothing else
     if T.count("__GRM_DATA") != 3 or T.count("__STABLE_DATA") != 3 or T.count("_reconstitute(") != 2:
         bad.append("P1: __GRM_DATA / __STABLE_DATA are used elsewhere than as the two arguments of the two _reconstitute calls")
+    # each arm reads with the configuration its format is WRITTEN with: the expression of the build-time `serialize` site of
+    # ctbuilder.rs (vlib/ctconfig.py; the one harness c14 — P4 — serialises with), of the format's integer encoding
     for f, enc in (("FixedSizeInteger", "fixint"), ("VariableSizedInteger", "varint")):
-        if T.count(RECONSTITUTE_ARM % (f, enc)) != 1:
-            bad.append("P2: the %s arm of __lrpar_parser_data is not `_reconstitute(__GRM_DATA, __STABLE_DATA, ..with_%s_encoding())`" % (f, enc))
+        arm, want = reconstitute_arm_config(T, f), ctconfig.norm(cfgs[f]["write"])
+        if arm is None or ctconfig.norm(arm) != want or ("with_%s_encoding()" % enc) not in want:
+            bad.append("P2: the %s arm of __lrpar_parser_data is not `_reconstitute(__GRM_DATA, __STABLE_DATA, <the %s configuration "
+                       "the data is serialised with: %s>)` but reads with `%s`" % (f, enc, want, arm))
     if T.count("const__SERIALISATION_FORMAT:::lrpar::ctbuilder::SerialisationFormat=::lrpar::ctbuilder::SerialisationFormat::%s;" % fmt) != 1 \
             or T.count("const__SERIALISATION_FORMAT") != 1:
         bad.append("P2: __SERIALISATION_FORMAT is not the configured format %s" % fmt)
@@ -522,6 +541,7 @@ def static_module_part(ctx, d, accepted):
     C13_ct_lexerdef_equals_rt) assume — P1-P3, L1 by reading the text, P4 by comparing the embedded
     constants with the serialisation (harness c14: same wincode calls as ctbuilder) of the grammar and
     table the RUN-TIME functions build from the same .y source, in the configured format."""
+    cfgs = ctconfig.ensure_harness_config()     # harness c14 serialises with the configuration expressions of ctbuilder.rs
     exe14 = core.build_harness("c14")
     lines = []
     for pr in accepted:
@@ -534,7 +554,7 @@ def static_module_part(ctx, d, accepted):
         s = pr['settings']
         T = squeeze(open("%s/%s.y.rs" % (d, pr['name'])).read())
         L = squeeze(open("%s/%s.l.rs" % (d, pr['name'])).read())
-        bad, gb, sb = module_text_facts(T, pr['yk'], s['rec'], s['ser'])
+        bad, gb, sb = module_text_facts(T, pr['yk'], s['rec'], s['ser'], cfgs)
         bad += lexer_text_facts(L)
         secs = dict((x.split(" ", 1) + [""])[:2] for x in r.split(" # "))
         if "BG" not in secs or "BS" not in secs:
@@ -664,6 +684,11 @@ def tamper(d, progs, how):
             src = open(lp).read()
             src = src.replace("& lex_flags).unwrap()", "& ::lrlex::DEFAULT_LEX_FLAGS).unwrap()", 1)
             open(lp, "w").write(src)
+        if how == "config" and os.path.exists(yp):
+            # the Fixed arm reads with a configuration other than the one ctbuilder.rs writes with (a size limit on the reading side only)
+            src = open(yp).read()
+            src = re.sub(r"(with_fixint_encoding\s*\(\s*\))\s*\.\s*disable_preallocation_size_limit\s*\(\s*\)", r"\1", src)
+            open(yp, "w").write(src)
         if how == "okerr" and os.path.exists(yp):
             src = open(yp).read()
             src = src.replace("if l.faulty() { Err(l) } else { Ok(l) }", "if l.faulty() { Ok(l) } else { Err(l) }")
@@ -979,7 +1004,8 @@ def run(ctx):
         "under the same flags (C13_ct_lexerdef_equals_rt, _ct_lex_equals_rt).  These rest on facts about the generated TEXT, checked on "
         "every generated module of the run (obligation 'generated parse()/lexerdef() text'): P1 one __GRM_DATA / __STABLE_DATA constant "
         "each, used only as the arguments of _reconstitute in this order; P2 __SERIALISATION_FORMAT = configured format and each arm "
-        "decodes with its own configuration; P3 parse() takes grm/stable from __lrpar_parser_data() and makes exactly one "
+        "decodes with the configuration expression ctbuilder.rs serialises that format with (read from the source by vlib/ctconfig.py, "
+        "which also compiles it into harness c14: size limit disabled since /repo 40b4e42); P3 parse() takes grm/stable from __lrpar_parser_data() and makes exactly one "
         "RTParserBuilder::new(grm, stable).recoverer(<configured kind>).<entry point of the YaccKind>; P4 the embedded bytes equal the "
         "serialisation (harness c14, same wincode calls) of the grammar and table the run-time functions build from the same source "
         "(needs C15: the construction is deterministic across processes); L1 every Rule::new of lexerdef() is built with the one "
